@@ -94,6 +94,8 @@ func ruleP4(c *Ctx) {
 	// (c) addSpecifiedData
 	if as := c.mustFunc("bql/planner", "queryPlan.addSpecifiedData"); as != nil {
 		okKeep := false
+		noMerge := false
+		_ = noMerge
 		allInstrs(as, func(in ssa.Instruction) {
 			call, ok := in.(*ssa.Call)
 			if !ok || call.Call.StaticCallee() == nil || call.Call.StaticCallee().Name() != "AddRow" {
@@ -118,9 +120,16 @@ func ruleP4(c *Ctx) {
 				if usesRow || strings.Contains(c.term(call.Call.Args[1]), "param:"+as.Params[2].Name()) {
 					okKeep = true
 				}
+				// ... merged with an empty cell for every binding the clause would have supplied: the row handed to
+				// AddRow is the result of MergeRows, not the bare input row (every row of a table has a cell per binding;
+				// the sorter and the projection rely on it)
+				if mc, ok := call.Call.Args[1].(*ssa.Call); !ok || mc.Call.StaticCallee() == nil || fnName(mc.Call.StaticCallee()) != "MergeRows" {
+					okKeep = false
+					noMerge = true
+				}
 			}
 		})
-		c.check(okKeep, "addSpecifiedData keeps the row when an optional clause matches nothing", as.Pos(), "on NumRows()==0 && Optional the input row (merged with NULL cells) is added", "the no-match branch of an optional clause no longer adds the input row: rows without a match disappear")
+		c.check(okKeep, "addSpecifiedData keeps the row when an optional clause matches nothing", as.Pos(), "on NumRows()==0 && Optional the input row (merged with NULL cells) is added", "the no-match branch of an optional clause no longer adds the input row merged with empty cells for the clause's bindings: rows without a match disappear, or stay without a cell for the new bindings (ORDER BY/GROUP BY on such a binding then ends the process in rowLess, an alias on it dereferences nil)")
 	}
 	// (d) skippable errors
 	if tr := c.mustFunc("bql/planner", "tripleToRow"); tr != nil {
